@@ -315,7 +315,7 @@ def streams(pid, tier, seed):
             "C09": lambda: ext_stream(seed + 11, n), "C10": lambda: ext_stream(seed + 12, n), "C11": lambda: ext_stream(seed + 13, n),
             "C13": lambda: mixed_stream(seed + 12, n)[0], "C15": lambda: mixed_stream(seed + 13, n)[0],
             "C02": lambda: text_stream(seed + 11, n), "C06": lambda: text_stream(seed + 12, n), "C07": lambda: text_stream(seed + 13, n, few_cells=True, toggles=True),
-            "C16": lambda: text_stream(seed + 14, n, toggles=True), "C19": lambda: mixed_stream(seed + 14, n, multi=True)[0]}.get(pid)
+            "C16": lambda: mixed_stream(seed + 15, n)[0], "C19": lambda: mixed_stream(seed + 14, n, multi=True)[0]}.get(pid)
     if base is not None:
         S.append(("reent", "u", gen.reentrant(base(), seed)))
     return S
@@ -356,7 +356,7 @@ def twin_specs(pid, tier, seed):
 ALLC = r"^(S\..*|A|T\d\..*|E\d+)$"
 RPI = {"C01": r"^(S\.(pi|pty|tp|ta|ms)|E[0-4])$", "C02": r"^T\d\.cells$", "C03": ALLC, "C04": r"^E\d+$", "C06": r"^T\d\.cells$",
        "C07": r"^T\d\.cells$", "C08": r"^(T[12]\..*|E9)$", "C09": r"^(S\..*|A|E[0-7])$", "C10": r"^(A|E7)$",
-       "C11": r"^(S\.ecc|S\.country|E5|E6)$", "C13": r"^(S\..*|A|T\d\..*)$", "C15": r"^E\d+$", "C16": r"^T\d\.(len|av|term)$", "C19": ALLC}
+       "C11": r"^(S\.ecc|S\.country|E5|E6)$", "C13": r"^(S\..*|A|T\d\..*)$", "C15": r"^E\d+$", "C16": r"^T\d\..*$", "C19": ALLC}
 
 # ------------------------------------------------------------------------------------------
 # known findings
